@@ -972,6 +972,18 @@ func (tc *typechecker) binaryOp(expr1 ast.Expression, op ast.OperatorType, expr2
 			if !t1.Untyped() && !operatorsOfKind[t1.Type.Kind()][op] {
 				return nil, fmt.Errorf("operator %s not defined on %s", op, t1.ShortString())
 			}
+			// Also an untyped floating-point or complex constant can be
+			// represented as an integer, if it has an integer value. The
+			// modulo operator is checked below.
+			if t1.Untyped() && t1.IsNumeric() && op != ast.OperatorModulo {
+				t := t1
+				if t1.Type.Kind() < t2.Type.Kind() {
+					t = t2
+				}
+				if !operatorsOfKind[t.Type.Kind()][op] {
+					return nil, fmt.Errorf("operator %s not defined on %s", op, t.ShortString())
+				}
+			}
 		}
 
 		c1 := t1.Constant
